@@ -240,10 +240,16 @@ class Weaver:
             need_block = bool(pre_lets) or (cs is not None)
             if cs is not None:
                 ann = []
+                ins_at = c["or2"][1]
                 if cs.get("ret"):
                     if c["has_ret"]:
-                        raise Undecided(f"closure {k} of {spec['path']} already has a return type; W3 cannot name it")
-                    ann.append(f" -> ({cs['ret']})")
+                        # the closure already declares `-> T`: name the result in place, `-> (o: T)`, keeping the code's own type
+                        rs, re_ = c["ret"]
+                        name = cs["ret"].split(":")[0].strip()
+                        ed.replace(rs, re_, f"({name}: " + src[rs:re_].decode("utf-8") + ")", "W3")
+                        ins_at = re_
+                    else:
+                        ann.append(f" -> ({cs['ret']})")
                 if cs.get("requires"):
                     ann.append("\n        requires")
                     for i, x in enumerate(cs["requires"]):
@@ -254,7 +260,7 @@ class Weaver:
                     for i, x in enumerate(cs["ensures"]):
                         tag, t = clause_tag(x)
                         ann.append("\n            " + self.mark(fid, f"closure{k}.ensures", i, tag, t) + ",")
-                ed.insert(c["or2"][1], "".join(ann) + "\n        ", "W3")
+                ed.insert(ins_at, "".join(ann) + "\n        ", "W3")
             if need_block:
                 bs, be = c["body"]
                 if c["body_is_block"] and not pre_lets:
